@@ -4,6 +4,7 @@ package session
 
 import (
 	"fmt"
+	"runtime"
 
 	"git.sr.ht/~rockorager/vaxis"
 	vsignal "git.sr.ht/~rockorager/vaxis/verifshim/vsignal"
@@ -28,7 +29,36 @@ func Open(prof refterm.Profile, cols, rows int, opts vaxis.Options) (*Session, e
 	t := refterm.New(cols, rows, prof)
 	con := fakecon.New(t)
 	opts.WithConsole = con
-	vx, err := vaxis.New(opts)
+	// New normally needs no timer (every profile answers DA1 and DSR-CPR). With a tiny event
+	// queue the input goroutine can block on the queue before the cursor-position report
+	// is handled; the 50 ms time-out of that query is then the way forward, as in real time.
+	type res struct {
+		vx  *vaxis.Vaxis
+		err error
+	}
+	done := make(chan res, 1)
+	go func() {
+		vx, err := vaxis.New(opts)
+		done <- res{vx, err}
+	}()
+	var rr res
+	spins := 0
+wait:
+	for {
+		select {
+		case rr = <-done:
+			break wait
+		default:
+			spins++
+			if spins > 50 && runtime.GOMAXPROCS(0) == 1 {
+				// everything else is blocked (workers run with GOMAXPROCS=1): virtual time passes
+				vtime.FireWhere(func(d vtime.Duration, isFunc bool) bool { return !isFunc && d == 50*vtime.Millisecond })
+				spins = 0
+			}
+			runtime.Gosched()
+		}
+	}
+	vx, err := rr.vx, rr.err
 	if err != nil {
 		return nil, fmt.Errorf("New: %w", err)
 	}
